@@ -17,7 +17,9 @@ Pool == {Sc("int"), Sc("str"), Sc("bool"), Sc("float"), Sc("Any"), Sc("None"), S
          Un(<<Sc("int"), Sc("str")>>), Un(<<Sc("str"), Sc("int")>>), Un(<<Sc("int"), Sc("str"), Sc("None")>>),
          Lit(<<"la">>), Lit(<<"lb">>), Lit(<<"la", "lb">>), Un(<<Lit(<<"lb">>), Sc("int")>>),
          T("dict", <<Sc("str"), Sc("int")>>, <<>>), T("dict", <<Sc("str"), Sc("bool")>>, <<>>), T("Mapping", <<Sc("str"), Sc("Any")>>, <<>>),
-         Model("m1"), Model("m2"), Model("m3"), Opt(Model("m2")), T("list", <<Model("m2")>>, <<>>), T("list", <<Model("m1")>>, <<>>)}
+         Model("m1"), Model("m2"), Model("m3"), Opt(Model("m2")), T("list", <<Model("m2")>>, <<>>), T("list", <<Model("m1")>>, <<>>),
+         \* constant-length tuples are not iterables of the coercion rules: only the as-is rules apply to them
+         T("tuple1", <<Sc("int")>>, <<>>), T("tuple2", <<Sc("int"), Sc("str")>>, <<>>)}
         \cup (IF Rich THEN {T("newtype", <<>>, <<"NT">>), Sc("G_int"), Sc("G_str"), Sc("bytes"), T("frozenset", <<Sc("str")>>, <<>>),
                             T("deque", <<Sc("int")>>, <<>>), T("Iterable", <<Sc("A")>>, <<>>), T("list", <<Sc("B")>>, <<>>), Opt(Sc("A")),
                             Un(<<Sc("A"), Sc("int")>>), Un(<<LI, Sc("None"), Sc("str")>>), Opt(Opt(Sc("int")))} ELSE {})
@@ -29,13 +31,17 @@ ModelTable == [m1 |-> <<F("a", Sc("int"), TRUE), F("b", Sc("str"), TRUE)>>,
 
 Wrap(ctx, t) == CASE ctx = "direct" -> t [] ctx = "optional" -> Opt(t) [] ctx = "list" -> T("list", <<t>>, <<>>)
                   [] ctx = "dictval" -> T("dict", <<Sc("str"), t>>, <<>>)
-Contexts == {"direct", "optional", "list", "dictval"}
+                  [] ctx = "dictkey" -> T("dict", <<t, Sc("int")>>, <<>>)           \* keys are coerced like values
+Contexts == {"direct", "optional", "list", "dictval", "dictkey"}
+\* types whose values can be keys
+KeyPool == {Sc("int"), Sc("str"), Sc("bool"), Sc("A"), Sc("B"), Model("m1"), Model("m2"), Model("m3"), Lit(<<"la">>), Lit(<<"la", "lb">>),
+            T("tuple1", <<Sc("int")>>, <<>>), Un(<<Sc("int"), Sc("str")>>), Opt(Sc("int"))}
 
 VARIABLES st, s, d, ctx
 Init == st = "root" /\ s = Sc("int") /\ d = Sc("int") /\ ctx = "direct"
 PickSrc == /\ st = "root" /\ \E x \in Pool : s' = x
            /\ st' = "src" /\ UNCHANGED <<d, ctx>>
-PickDst == /\ st = "src" /\ \E x \in Pool, c \in Contexts : d' = x /\ ctx' = c
+PickDst == /\ st = "src" /\ \E x \in Pool, c \in Contexts : (c = "dictkey" => (x \in KeyPool /\ s \in KeyPool)) /\ d' = x /\ ctx' = c
            /\ st' = "case" /\ s' = s
 Next == PickSrc \/ PickDst
 
